@@ -9,7 +9,7 @@
 (* boolean, ASCII variables with all four bound forms, array and list       *)
 (* variables, numbered ellipses, lists nested to depth 2; headers with all  *)
 (* wait-bit states, directions and adversarial names.                       *)
-EXTENDS SmlNorm, Ellipsis, TLC
+EXTENDS SmlNorm, Ellipsis, TLC, Json
 CONSTANT MaxStr
 D(ds) == [neg |-> FALSE, dec |-> ds]
 N(ds) == [neg |-> TRUE, dec |-> ds]
@@ -61,5 +61,7 @@ RoundTrip == msg # NoMsg =>
    /\ r.outcome = "returned" /\ r.errs = <<>> /\ r.warns = <<>>
    /\ Len(r.msgs) = 1
    /\ NormMsgM(r.msgs[1], <<>>) = NormMsgJ(msg)
+\* TLC -> Go: every message of the scope with the text the printer model writes for it
+EmitCase == msg = NoMsg \/ PrintT("CASE " \o ToJson([msg |-> msg, text |-> PrintMsg(msg)]))
 \* printing the parsed message gives the same text again (fixed point), with the parsed message mapped back to the printer's shape
 =====================================================================
